@@ -5,7 +5,7 @@
 
 From Coq Require Import List Bool Arith NArith Lia Permutation.
 From AMV Require Import Base.ListSet Model.Schema Model.Resolver Model.Machine
-  Spec.C01 Spec.C05 Spec.C07 Spec.C05b Spec.C05d.
+  Spec.C01 Spec.C05 Spec.C07 Spec.C05b Spec.C05d Spec.C05e.
 Import ListNotations.
 
 (* ------------------------------------------------------------------ *)
@@ -4008,6 +4008,80 @@ Proof.
     rewrite Hmd. destruct (mem x prev), (mem x target); reflexivity.
 Qed.
 
+(* the exact tick steps of setActiveStates *)
+Lemma tick_at_value : forall cl i d x, x < length cl ->
+  nth x (tick_at cl i d) 0%N = (nth x cl 0 + (if Nat.eqb x i then d else 0))%N.
+Proof.
+  intros cl i d x Hx. unfold tick_at. rewrite tick_nth_gen. cbn [plus].
+  replace (x <? length cl) with true by (symmetry; apply Nat.ltb_lt; exact Hx).
+  rewrite andb_true_r. destruct (Nat.eqb x i); [reflexivity | rewrite N.add_0_r; reflexivity].
+Qed.
+
+Lemma fold_step_value : forall (F : list N -> nat -> list N) (d : nat -> N),
+  (forall c name, length (F c name) = length c) ->
+  (forall c name x, x < length c ->
+     nth x (F c name) 0%N = (nth x c 0 + (if Nat.eqb x name then d name else 0))%N) ->
+  forall l cl x, NoDup l -> x < length cl ->
+    nth x (fold_left F l cl) 0%N = (nth x cl 0 + (if mem x l then d x else 0))%N.
+Proof.
+  intros F d HL HV l. induction l as [|a r IH]; intros cl x Hnd Hx.
+  - cbn. rewrite N.add_0_r. reflexivity.
+  - inversion Hnd as [|? ? Ha Hr]; subst. cbn [fold_left].
+    assert (Hx' : x < length (F cl a)) by (rewrite HL; exact Hx).
+    rewrite (IH (F cl a) x Hr Hx'), (HV cl a x Hx). unfold mem. cbn [existsb]. fold (mem x r).
+    destruct (Nat.eqb x a) eqn:E.
+    + apply Nat.eqb_eq in E. subst a.
+      replace (mem x r) with false by (symmetry; apply mem_false; exact Ha).
+      cbn. rewrite N.add_0_r. reflexivity.
+    + cbn. rewrite N.add_0_r. reflexivity.
+Qed.
+
+Lemma set_active_clock_value : forall scm cl prev called target x,
+  NoDup prev -> NoDup target -> x < length cl ->
+  nth x (set_active_clock scm cl prev called target) 0%N
+  = (nth x cl 0
+     + (if mem x target
+        then (if negb (mem x prev) then 1
+              else if mem x called && s_multi (sget scm x) then 2 else 0)
+        else 0)
+     + (if mem x prev && negb (mem x target) then 1 else 0))%N.
+Proof.
+  intros scm cl prev called target x Hp Ht Hx. unfold set_active_clock.
+  set (F1 := fun (c : list N) (name : nat) =>
+               if negb (mem name prev) then tick_at c name 1
+               else if mem name called && s_multi (sget scm name) then tick_at c name 2 else c).
+  set (F2 := fun (c : list N) (name : nat) => tick_at c name 1).
+  set (d1 := fun name : nat => if negb (mem name prev) then 1%N
+                               else if mem name called && s_multi (sget scm name) then 2%N else 0%N).
+  assert (H1L : forall c name, length (F1 c name) = length c).
+  { intros c name. unfold F1. destruct (negb (mem name prev)); [apply tick_at_length|].
+    destruct (mem name called && s_multi (sget scm name)); [apply tick_at_length | reflexivity]. }
+  assert (H1V : forall c name y, y < length c ->
+            nth y (F1 c name) 0%N = (nth y c 0 + (if Nat.eqb y name then d1 name else 0))%N).
+  { intros c name y Hy. unfold F1, d1. destruct (negb (mem name prev)).
+    - apply tick_at_value. exact Hy.
+    - destruct (mem name called && s_multi (sget scm name)).
+      + apply tick_at_value. exact Hy.
+      + destruct (Nat.eqb y name); rewrite N.add_0_r; reflexivity. }
+  assert (H2L : forall c name, length (F2 c name) = length c) by (intros; apply tick_at_length).
+  assert (H2V : forall c name y, y < length c ->
+            nth y (F2 c name) 0%N
+            = (nth y c 0 + (if Nat.eqb y name then (fun _ : nat => 1%N) name else 0))%N).
+  { intros c name y Hy. unfold F2. apply tick_at_value. exact Hy. }
+  assert (Hd : NoDup (diff prev target)) by (apply NoDup_filter; exact Hp).
+  assert (Hl1 : length (fold_left F1 target cl) = length cl) by (apply fold_keep_length; exact H1L).
+  rewrite (fold_step_value F2 (fun _ => 1%N) H2L H2V _ _ x Hd) by (rewrite Hl1; exact Hx).
+  rewrite (fold_step_value F1 d1 H1L H1V _ _ x Ht Hx).
+  assert (Hmd : mem x (diff prev target) = mem x prev && negb (mem x target)).
+  { destruct (mem x (diff prev target)) eqn:E.
+    - apply mem_In, diff_In in E. destruct E as [E1 E2]. apply mem_In in E1. apply mem_false in E2.
+      rewrite E1, E2. reflexivity.
+    - destruct (mem x prev) eqn:E1; [|reflexivity]. destruct (mem x target) eqn:E2; [reflexivity|].
+      exfalso. apply mem_false in E. apply E. apply diff_In.
+      apply mem_In in E1. apply mem_false in E2. tauto. }
+  rewrite Hmd. reflexivity.
+Qed.
+
 (* ------------------------------------------------------------------ *)
 (* per-step theorems (C07)                                             *)
 (* ------------------------------------------------------------------ *)
@@ -4709,6 +4783,104 @@ Lemma judged_codes_slice : forall scm tp h1 h2 t,
 Proof. intros scm tp h1 h2 t H. unfold judged_codes. rewrite H. reflexivity. Qed.
 
 (* ------------------------------------------------------------------ *)
+(* C05e (code 550): final handlers judged on the clocks                *)
+(* ------------------------------------------------------------------ *)
+
+Lemma moved_codes_slice : forall bs h1 h2 t,
+  slice h1 (tx_hfrom t) (tx_hto t) = slice h2 (tx_hfrom t) (tx_hto t) ->
+  moved_codes bs h1 t = moved_codes bs h2 t.
+Proof. intros bs h1 h2 t H. unfold moved_codes. rewrite H. reflexivity. Qed.
+
+(* which states move, and how they end *)
+Lemma moved_step_facts : forall s mu s' r rec,
+  good s -> NoDup (active s) -> parity s -> run_tx s mu = (s', r) -> txs s' = rec :: txs s ->
+  tx_mach_after rec = tx_after rec /\
+  forall x, In x (moved_states rec) ->
+    tx_accepted rec && negb (tx_check rec) = true /\
+    (N.odd (nth x (tx_mach_after rec) 0%N) = true -> In x (expected_enters (sc s) rec)) /\
+    (N.odd (nth x (tx_mach_after rec) 0%N) = false -> In x (expected_exits rec)).
+Proof.
+  intros s mu s' r rec G Hnd [P1 P2] H Htx.
+  destruct (run_tx_outcome _ _ _ _ G H)
+    as (negs & fins & canceled & tgt1 & _ & _ & _ & _ & _ & _ & _ & _ & _ & O).
+  destruct O as [(_ & Hx & _)|(rec' & Rb & O)].
+  { rewrite Hx in Htx. exfalso. eapply cons_neq_self. exact Htx. }
+  assert (rec' = rec).
+  { destruct Rb as (Hx & _). rewrite Hx in Htx. inversion Htx. reflexivity. }
+  subst rec'.
+  pose proof Rb as (_ & _ & _ & Hca & _ & Hck & _ & Hb & Hab & _ & _ & Hma).
+  destruct O as [N|A].
+  - destruct N as (_ & _ & Hc & _ & Haf & _). split; [congruence|].
+    intros x Hx. exfalso. unfold moved_states in Hx. apply filter_In in Hx. destruct Hx as [_ Hx].
+    rewrite Hma, Hb, Hc, N.eqb_refl in Hx. discriminate.
+  - destruct A as (_ & Hc & Hacc & Ha & Hcl & Hs & _ & _ & _ & Hn & _).
+    split; [congruence|]. intros x Hx.
+    unfold moved_states in Hx. apply filter_In in Hx. destruct Hx as [Hxl Hx].
+    apply in_seq in Hxl. rewrite Hb in Hxl. assert (Hlt : x < length (clock s)) by lia.
+    apply negb_true_iff, N.eqb_neq in Hx. rewrite Hma, Hb, Hcl, Hs in Hx.
+    rewrite (set_active_clock_value (sc s) (clock s) (active s) (mu_called mu) (tx_target rec) x
+               Hnd Hn Hlt) in Hx.
+    destruct (set_active_clock_parity (sc s) (clock s) (active s) (mu_called mu) (tx_target rec)
+                Hnd Hn P2) as [_ Hpar].
+    rewrite Hma, Hcl, Hs, (Hpar x Hlt).
+    split; [rewrite Hacc, Hck, Hc; reflexivity|]. split.
+    + intros Ht. unfold expected_enters. rewrite Hab, Hca. apply filter_In.
+      split; [apply mem_In; exact Ht|].
+      rewrite Ht in Hx. destruct (mem x (active s)) eqn:Ep; [|reflexivity]. cbn [negb orb] in *.
+      rewrite andb_comm.
+      destruct (mem x (mu_called mu) && s_multi (sget (sc s) x)); [reflexivity|].
+      exfalso. apply Hx. rewrite !N.add_0_r. reflexivity.
+    + intros Ht. unfold expected_exits. rewrite Hab. apply diff_In.
+      split; [|apply mem_false; exact Ht].
+      rewrite Ht in Hx. destruct (mem x (active s)) eqn:Ep; [apply mem_In; exact Ep|].
+      exfalso. apply Hx. cbn. rewrite !N.add_0_r. reflexivity.
+Qed.
+
+Lemma moved_codes_step : forall s mu s' r rec,
+  good s -> NoDup (active s) -> parity s -> run_tx s mu = (s', r) -> txs s' = rec :: txs s ->
+  moved_codes (bindings s) (rev (hlog s')) rec = [].
+Proof.
+  intros s mu s' r rec G Hnd Hpar H Htx.
+  destruct (moved_step_facts _ _ _ _ _ G Hnd Hpar H Htx) as [_ Hm].
+  destruct (run_tx_outcome _ _ _ _ G H)
+    as (negs & fins & canceled & tgt1 & L & _ & _ & _ & _ & _ & _ & _ & _ & O).
+  destruct O as [(_ & Hx & _)|(rec' & Rb & _)].
+  { rewrite Hx in Htx. exfalso. eapply cons_neq_self. exact Htx. }
+  assert (rec' = rec).
+  { destruct Rb as (Hx & _). rewrite Hx in Htx. inversion Htx. reflexivity. }
+  subst rec'.
+  assert (L2 : hlog s' = (fins ++ negs) ++ hlog s) by (rewrite L, app_assoc; reflexivity).
+  pose proof Rb as (_ & _ & _ & _ & _ & _ & _ & _ & _ & Hfrom & Hto & _).
+  assert (Hs : slice (rev (hlog s')) (tx_hfrom rec) (tx_hto rec) = rev (fins ++ negs)).
+  { rewrite Hfrom, Hto, L2. apply (slice_rev_mid hlentry [] (fins ++ negs) (hlog s)). }
+  unfold moved_codes. rewrite Hs.
+  replace (forallb _ (combine (seq 0 (length (bindings s))) (bindings s))) with true; [reflexivity|].
+  symmetry. apply forallb_forall. intros [i b] Hib.
+  apply combine_seq_nth in Hib. destruct Hib as [_ Hn]. rewrite Nat.sub_0_r in Hn.
+  apply forallb_forall. intros k Hk.
+  assert (Hd : existsb (hkey_eqb k) (nth i (bindings s) []) = true).
+  { rewrite Hn. apply existsb_exists. exists k. split; [exact Hk | apply hkey_eqb_refl]. }
+  destruct k as [x|x|x|a b0| |x|x|]; try reflexivity.
+  - (* HEnd x *)
+    destruct (mem x (moved_states rec)) eqn:Em; [|reflexivity].
+    destruct (N.odd (nth x (tx_mach_after rec) 0%N)) eqn:Eo; [reflexivity|].
+    cbn [negb andb orb]. apply mem_In in Em. destruct (Hm x Em) as (Happ & _ & Hex).
+    destruct (finals_once_step_lemma _ _ _ _ _ _ G Hnd H L2 Htx) as [Hc _].
+    destruct (Hc Happ i x) as [Y _]. rewrite Y, Hd.
+    replace (mem x (expected_exits rec)) with true by (symmetry; apply mem_In; apply Hex; exact Eo).
+    reflexivity.
+  - (* HState x *)
+    destruct (mem x (moved_states rec)) eqn:Em; [|reflexivity].
+    destruct (N.odd (nth x (tx_mach_after rec) 0%N)) eqn:Eo; [|reflexivity].
+    cbn [negb andb orb]. apply mem_In in Em. destruct (Hm x Em) as (Happ & Hen & _).
+    destruct (finals_once_step_lemma _ _ _ _ _ _ G Hnd H L2 Htx) as [Hc _].
+    destruct (Hc Happ i x) as [_ Y]. rewrite Y, Hd.
+    replace (mem x (expected_enters (sc s) rec)) with true
+      by (symmetry; apply mem_In; apply Hen; exact Eo).
+    reflexivity.
+Qed.
+
+(* ------------------------------------------------------------------ *)
 (* the run invariant                                                   *)
 (* ------------------------------------------------------------------ *)
 
@@ -4718,7 +4890,8 @@ Definition rec_ok (s : st) (t : txrec) : Prop :=
   ord_ok (sc s) (topo s) (rev (hlog s)) t /\
   consulted_codes (sc s) (topo s) (bindings s) (rev (hlog s)) t = [] /\
   (no_veto_in (slice (rev (hlog s)) (tx_hfrom t) (tx_hto t)) ->
-   judged_codes (sc s) (topo s) (rev (hlog s)) t = []).
+   judged_codes (sc s) (topo s) (rev (hlog s)) t = []) /\
+  moved_codes (bindings s) (rev (hlog s)) t = [].
 
 Definition step_ok (scm : schema) (hl : list nat) (t n : txrec) : Prop :=
   match (if triggers_auto hl t then auto_candidates scm (tx_target t) else []) with
@@ -4787,8 +4960,9 @@ Lemma rec_ok_ext : forall s s' x t,
   rec_ok s t -> hlog s' = x ++ hlog s -> sc s' = sc s -> bindings s' = bindings s ->
   topo s' = topo s -> rec_ok s' t.
 Proof.
-  intros s s' x t (Y1 & Y2 & Y3 & Y4 & Y5) L Hs Hb Ht. unfold rec_ok. rewrite L, Hs, Hb, Ht.
-  split; [|split; [|split; [|split]]].
+  intros s s' x t (Y1 & Y2 & Y3 & Y4 & Y5 & Y6) L Hs Hb Ht. unfold rec_ok. rewrite L, Hs, Hb, Ht.
+  split; [|split; [|split; [|split; [|split]]]].
+  6:{ rewrite <- Y6. apply moved_codes_slice. apply slice_rev_ext. exact Y1. }
   5:{ rewrite (slice_rev_ext _ x (hlog s) _ _ Y1). intros Hnv. rewrite <- (Y5 Hnv).
       apply judged_codes_slice. apply slice_rev_ext. exact Y1. }
   - rewrite app_length. lia.
@@ -4891,6 +5065,8 @@ Proof.
         rewrite Hmu. split; [reflexivity|]. split; [reflexivity|]. cbn [mu_called auto_mut].
         intros x Hin. rewrite <- El in Hin. apply lastc_lt in Hin. exact Hin. }
       pose proof (judged_codes_step _ _ _ _ _ G1 Hnd1 Hpa1 Hmj H Htx2') as Y5.
+      pose proof (moved_codes_step _ _ _ _ _ G1 Hnd1 Hpa1 H Htx2') as Y6.
+      rewrite (keeps_bindings _ _ K) in Y6.
       unfold rec_ok. rewrite Hs2, Hb2, Ht2.
       rewrite (keeps_sc _ _ K), (keeps_bindings _ _ K) in Y1.
       rewrite (keeps_sc _ _ K), (keeps_topo _ _ K) in Y3.
@@ -5777,7 +5953,7 @@ Proof.
   cbn. intros t Ht Hnv. apply in_rev in Ht.
   destruct (run_final_inv _ _ _ _ _ _ _ _ _ _ _ _ F E) as [I _].
   destruct I as (I0 & I1 & _ & _ & _ & _ & Hr & _).
-  rewrite Forall_forall in Hr. destruct (Hr t Ht) as (_ & _ & _ & _ & Y).
+  rewrite Forall_forall in Hr. destruct (Hr t Ht) as (_ & _ & _ & _ & Y & _).
   rewrite I0, I1 in Y. apply Y. exact Hnv.
 Qed.
 
@@ -5792,4 +5968,49 @@ Example judged_nv_ok_nonvacuous :
     judged_codes ex_sch2 [] (tr_hlog tr) t = []
   | None => False
   end.
+Proof. vm_compute. repeat split; reflexivity. Qed.
+
+(* ================================================================== *)
+(* C05e (code 550) on whole runs                                       *)
+(* ================================================================== *)
+
+Lemma moved_codes_ok_lemma : forall sch tp hl ex bs ql acts cs fuel,
+  fault_free acts ->
+  forall t, In t (tr_txs (run fuel (init_st sch tp hl ex bs ql acts) cs)) ->
+    moved_codes bs (tr_hlog (run fuel (init_st sch tp hl ex bs ql acts) cs)) t = [].
+Proof.
+  intros sch tp hl ex bs ql acts cs fuel F. rewrite run_unfold.
+  destruct (run_calls_top fuel (init_st sch tp hl ex bs ql acts) cs []) as [[s1 obs] ok] eqn:E.
+  cbn. intros t Ht. apply in_rev in Ht.
+  destruct (run_final_inv _ _ _ _ _ _ _ _ _ _ _ _ F E) as [I _].
+  destruct I as (_ & _ & _ & I3 & _ & _ & Hr & _).
+  rewrite Forall_forall in Hr. destruct (Hr t Ht) as (_ & _ & _ & _ & _ & Y).
+  rewrite I3 in Y. exact Y.
+Qed.
+
+Lemma c05e_codes_run_lemma : forall sch tp hl ex bs ql acts cs fuel,
+  fault_free acts ->
+  c05e_codes bs (run fuel (init_st sch tp hl ex bs ql acts) cs) = [].
+Proof.
+  intros sch tp hl ex bs ql acts cs fuel F. unfold c05e_codes. apply flat_map_nil.
+  intros t Ht. apply moved_codes_ok_lemma; assumption.
+Qed.
+
+(* 0: A; 1: B (Remove A); 2: M (Multi); 3: Exception (Multi).
+   Add [A; M], then Add [M; B]: A exits (+1), B enters (+1), M is re-entered (+2) *)
+Example c05e_codes_run_nonvacuous :
+  let sch := [wx_mk false false [] []; wx_mk false false [] [0]; wx_mk false true [] [];
+              wx_mk false true [] []] in
+  let bs := [[HState 2; HEnd 0; HState 1; HState 0; HEnd 2]; [HState 2; HEnd 0]] in
+  let tr := run 100 (init_st sch [] [] 3 bs 1000 [])
+                [ex_add [0; 2]; ex_add [2; 1]; ex_add [1]] in
+  tr_fuel_ok tr = true /\
+  map (fun t => (tx_before t, tx_mach_after t, moved_states t)) (tr_txs tr)
+    = [([0; 0; 0; 0]%N, [1; 0; 1; 0]%N, [0; 2]);
+       ([1; 0; 1; 0]%N, [2; 1; 3; 0]%N, [0; 1; 2]);
+       ([2; 1; 3; 0]%N, [2; 1; 3; 0]%N, [])] /\
+  map (fun h => (hl_key h, hl_binding h)) (tr_hlog tr)
+    = [(HState 0, 0); (HState 2, 0); (HState 2, 1); (HEnd 0, 0); (HEnd 0, 1);
+       (HState 2, 0); (HState 2, 1); (HState 1, 0)] /\
+  c05e_codes bs tr = [].
 Proof. vm_compute. repeat split; reflexivity. Qed.
